@@ -25,6 +25,16 @@ pub struct StatScn {
     /// shape of the second environment: multi-asset?
     pub market_b: bool,
     pub assets_b: usize,
+    /// step sizes of the two environments (a step size below the batch size makes every step oversized: the order in
+    /// which a batch is processed must not depend on that either)
+    #[serde(default = "default_step")]
+    pub step_a: u64,
+    #[serde(default = "default_step")]
+    pub step_b: u64,
+}
+
+fn default_step() -> u64 {
+    1000
 }
 
 pub fn generate(prop: &str, seed: u64, run_index: u64) -> StatScn {
@@ -39,6 +49,8 @@ pub fn generate(prop: &str, seed: u64, run_index: u64) -> StatScn {
         fresh: r.chance(0.5),
         market_b,
         assets_b: if market_b { r.range(1, 4) as usize } else { 1 },
+        step_a: *r.pick(&[1000u64, 1000, 1000, 4, 1, 100_000]),
+        step_b: *r.pick(&[1000u64, 1000, 7, 2, 1_000_000]),
     }
 }
 
@@ -63,11 +75,11 @@ pub fn execute(s: &StatScn) -> RunOutcome {
     let mk = |class: &str, step: usize, field: &str, exp: String, act: String| Violation::new(&s.property, class, step, field, exp, act);
     let res = (|| -> Result<(), Violation> {
         let ticks = [1u32, 1, 1, 1];
-        let mut env_a = guard(|| new_env(false, 1, 10, 0, &ticks, 1000, true)).map_err(|m| mk("panic", 0, "construction", "no abort".into(), m))?;
+        let mut env_a = guard(|| new_env(false, 1, 10, 0, &ticks, s.step_a, true)).map_err(|m| mk("panic", 0, "construction", "no abort".into(), m))?;
         // environment B differs in everything the order must not depend on: kind, assets, start time, instruction mix,
         // and (a quarter of the runs) it is halted: halted or not, the batch is shuffled by the generator
         let halted_b = s.seed % 4 == 0;
-        let mut env_b = guard(|| new_env(s.market_b, s.assets_b, if s.market_b { 3 } else { 5 }, 7, &ticks, 1000, !halted_b)).map_err(|m| mk("panic", 0, "construction", "no abort".into(), m))?;
+        let mut env_b = guard(|| new_env(s.market_b, s.assets_b, if s.market_b { 3 } else { 5 }, 7, &ticks, s.step_b, !halted_b)).map_err(|m| mk("panic", 0, "construction", "no abort".into(), m))?;
         if halted_b {
             stats.probe("environment_b_halted");
         }
@@ -248,7 +260,7 @@ pub fn execute(s: &StatScn) -> RunOutcome {
         };
         Ok(())
     })();
-    stats.sim_time = stats.ops * 1000;
+    stats.sim_time = stats.ops * s.step_a;
     if s.fresh {
         stats.probe_n("fresh_seed_steps", stats.ops);
     } else {
